@@ -1,3 +1,4 @@
+pub mod c01;
 pub mod c05;
 pub mod c09;
 pub mod c11;
@@ -5,7 +6,7 @@ pub mod c11;
 use crate::core::Prop;
 
 pub fn all() -> Vec<Box<dyn Prop>> {
-    vec![Box::new(c05::C05), Box::new(c09::C09), Box::new(c11::C11)]
+    vec![Box::new(c01::C01), Box::new(c05::C05), Box::new(c09::C09), Box::new(c11::C11)]
 }
 
 pub fn by_id(id: &str) -> Option<Box<dyn Prop>> {
